@@ -519,7 +519,23 @@ func sigString(c *astCanon, fd *ast.FuncDecl) string {
 			}
 		}
 	}
-	return "(" + c.fieldList(fd.Type.Params) + ")(" + strings.Join(res, ", ") + ")"
+	// parameter *types* only: parameter names are bound by the alpha-equivalence check of the body
+	var ps []string
+	if fd.Type.Params != nil {
+		for _, f := range fd.Type.Params.List {
+			if tv, ok := c.info.Types[f.Type]; ok && isCtxType(tv.Type) {
+				continue
+			}
+			n := len(f.Names)
+			if n == 0 {
+				n = 1
+			}
+			for i := 0; i < n; i++ {
+				ps = append(ps, c.expr(f.Type))
+			}
+		}
+	}
+	return "(" + strings.Join(ps, ", ") + ")(" + strings.Join(res, ", ") + ")"
 }
 
 func stmtText(w *World, info *types.Info, s ast.Node) string {
